@@ -274,6 +274,15 @@ class ndarray:
             raise TypeError('len() of unsized object')
         return self._shape[0]
 
+    def item(self):
+        self._check_alive()
+        if self.size != 1:
+            raise ValueError('can only convert an array of size 1 to a Python scalar')
+        src, off = self._rows().at(0)
+        if src[0] == 'lit' and not isinstance(src[1], tuple):
+            return src[1]
+        return _ItemToken(('item', self.dtype.name, src, off))
+
     @property
     def T(self):
         return _TView(self)
@@ -376,6 +385,19 @@ class _ListToken:
 
     def __eq__(self, o):
         return isinstance(o, _ListToken) and self.key == o.key
+
+    def __hash__(self):
+        return 0
+
+
+class _ItemToken:
+    """ndarray.item() of an opaque element: JSON-wise a bare number"""
+
+    def __init__(self, key):
+        self.key = key
+
+    def __eq__(self, o):
+        return isinstance(o, _ItemToken) and self.key == o.key
 
     def __hash__(self):
         return 0
@@ -682,8 +704,8 @@ def array(a, dtype=None, copy=True, ndmin=0, order=None):
                 out = a
         else:
             out = a.astype(dt)
-        if ndmin == 1 and out.ndim == 0:
-            out = ndarray(out.dtype, (1,), out._rows())
+        while out.ndim < ndmin:
+            out = _getitem(out, None)        # prepend axes of length 1 (np.array(..., ndmin=k))
         return out
     if isinstance(a, SeqInput):
         if a.kind in ('str', 'object') and dt is not None and dt.kind in 'iufc':
